@@ -48,6 +48,31 @@ theorem autotag_eq_firstElements (k : Nat) (p : List Char) :
       | nil => exact absurd hs hne
       | cons q qs => simp [joinSlash_cons_cons]
 
+/-! ### the http gun's tag is the tag the Spec expects -/
+
+theorem httpTag_eq_expected (cfg : AutoTagCfg) (t p : String) :
+    httpTag cfg t p = expectedTag cfg.enabled cfg.uriElements cfg.noTagOnly t p := by
+  have ha : autotag cfg.uriElements p = firstElements cfg.uriElements p := by
+    simp [autotag, firstElements, autotag_eq_firstElements]
+  have hne : ∀ a b : String, a ≠ "" → a ++ "|" ++ b ≠ "" := by
+    intro a b _ h
+    have := congrArg String.length h
+    simp [String.length_append] at this
+  unfold httpTag expectedTag
+  rw [ha]
+  by_cases h1 : (cfg.enabled && (!cfg.noTagOnly || decide (t = ""))) = true
+  · simp only [h1, if_true]
+    by_cases h2 : t = ""
+    · subst h2
+      by_cases h3 : firstElements cfg.uriElements p = ""
+      · simp [addTag, h3, Model.C10.emptyTag, Spec.C10.emptyTag]
+      · simp [addTag, h3]
+    · simp [addTag, h2, hne t _ h2]
+  · simp only [h1]
+    by_cases h2 : t = ""
+    · subst h2; simp [addTag, Model.C10.emptyTag, Spec.C10.emptyTag]
+    · simp [h2]
+
 /-! ### getErrno -/
 
 /-- every `syscall.Errno` inside the chain is a real error number (Go's syscall layer returns `nil`, not `Errno(0)`) -/
@@ -289,20 +314,31 @@ theorem shootHttp_one (cfg : AutoTagCfg) (s : HttpShot) (hc : s.connectHook = no
     | response st b => cases b <;> simp
     | doPanic => simp
 
+/-- the ids carried by the samples of a pool run are a sub-sequence of the ids handed out, one per FIRED ammo -/
 theorem runPool_ids {ι : Type} (cfg : AutoTagCfg) (c : Nat) (plans : List (ι × ShotPlan)) :
-    (runPool cfg c plans).map (·.id) = (List.range' 1 plans.length).map (fun k => (c + k) % idModulus) := by
+    ((runPool cfg c plans).map (·.id)).Sublist ((List.range' 1 plans.length).map (fun k => (c + k) % idModulus)) ∧
+    (runPool cfg c plans).length = (plans.filter (·.2.fired)).length := by
   induction plans generalizing c with
   | nil => simp [runPool]
   | cons ip rest ih =>
     obtain ⟨i, p⟩ := ip
     obtain ⟨r, hr, hid⟩ := shootHttp_one cfg (p.toShot (nextID c).2) rfl
-    simp only [runPool, hr, List.cons_append, List.nil_append, List.map_cons, hid, ih, List.length_cons]
-    rw [List.range'_succ, List.map_cons]
-    congr 1
-    rw [← List.map_add_range' (a := 1), List.map_map]
-    apply List.map_congr_left
-    intro k _
-    simp only [Function.comp, idModulus, nextID]
-    omega
+    have htail : (List.range' (1 + 1) rest.length).map (fun k => (c + k) % idModulus)
+        = (List.range' 1 rest.length).map (fun k => ((nextID c).1 + k) % idModulus) := by
+      rw [← List.map_add_range' (a := 1), List.map_map]
+      apply List.map_congr_left
+      intro k _
+      simp only [Function.comp, idModulus, nextID]
+      omega
+    have hhead : (c + 1) % idModulus = r.id := by rw [hid]; rfl
+    simp only [runPool, List.length_cons]
+    rw [List.range'_succ, List.map_cons, htail]
+    by_cases hf : p.fired = true
+    · simp only [hf, if_true, hr, List.cons_append, List.nil_append, List.map_cons, List.length_cons]
+      refine ⟨?_, by simp [List.filter, hf, (ih (nextID c).1).2]⟩
+      rw [← hhead]
+      exact List.Sublist.cons_cons _ (ih (nextID c).1).1
+    · simp only [hf]
+      refine ⟨List.Sublist.cons _ (ih (nextID c).1).1, by simp [List.filter, hf, (ih (nextID c).1).2]⟩
 
 end Pandora.Proofs.C10
